@@ -30,10 +30,13 @@ def case(item):
     sched = int(a.get("logical_processors", 1)) == 1
     r = enc.session(a, "asan", sched=sched, timeout=300, env=ENV)
     o = {"label": label, "status": "ok", "viol": [], "info": {}}
+    if r.get("timeout"):   # wall-clock limit on a possibly overloaded machine: one more run with a five times longer limit before it counts as a hang
+        r = enc.session(a, "asan", sched=sched, timeout=1500, env=ENV)
+        o["info"]["timeout_reruns"] = 1
     cls = cfg_class(label, a)
     if r.get("timeout"):
         o["status"] = "timeout"
-        o["viol"].append(("C11:hang@" + cls, "session exceeded the 300 s watchdog"))
+        o["viol"].append(("C11:hang@" + cls, "session exceeded the 300 s watchdog and, run again, 1500 s"))
         return o
     if r.get("deadlock") or r.get("livelock"):
         o["status"] = "deadlock"
